@@ -314,6 +314,7 @@ func runC17(c *Ctx) {
 	}
 	r.Require("accepted", 100)
 	r.Require("refused", 100)
+	c17ListDuringUpload(r)
 	r.Require("listbuckets_compared", 10)
 	r.Assume("BucketNameOracle is written from the property statement; dotted-decimal names with leading zeros or octets > 255 are don't-care")
 }
